@@ -40,7 +40,7 @@ const T_B: f64 = 1.5;
 
 /// extended alphabet (generated and specially enumerated sequences only): spans shorter than the step bounds,
 /// step bounds longer than the span
-const NSYM_EXT: u8 = 23;
+const NSYM_EXT: u8 = 25;
 
 fn sym_call(s: u8) -> Call {
     match s {
@@ -50,6 +50,8 @@ fn sym_call(s: u8) -> Call {
         20 => return Call::MaxDt(2.0),
         21 => return Call::End(T_A + 9.313225746154785e-10), // 2^-30: sums with the other times stay exact
         22 => return Call::Tol(1e-9),
+        23 => return Call::MinDt(1e-18), // below the floating-point spacing of every non-zero time used here
+        24 => return Call::MinDt(f64::MIN_POSITIVE),
         _ => {}
     }
     match s % NSYM as u8 {
@@ -286,7 +288,16 @@ fn run_builder(solver: SolverKind, dynamic: bool, seq: &[u8], complete: bool, mu
                 }
                 o.label("min-dt-on-decay");
             }
-            (None, End::TooManyPoints) | (None, End::Budget) => return o.fail(format!("configuration {calls:?}: unbounded path")),
+            (None, End::TooManyPoints) | (None, End::Budget) => {
+                // Euler's single step is whatever was set (a "minimum step" of 1e-18 is its step): a path of more points
+                // than the harness collects is then the documented behaviour, not an unbounded one
+                let span = model.end.unwrap() - model.start.unwrap();
+                if euler && span / model.dt.unwrap() > 150_000.0 {
+                    o.label("euler-tiny-step");
+                    continue;
+                }
+                return o.fail(format!("configuration {calls:?}: unbounded path"));
+            }
         }
     }
     o.label("built");
